@@ -171,7 +171,7 @@ def loopKw (ps : List VParam) (strict : Bool) : List (Name × PV) → Assoc → 
     | some p => do
         let v' ← p.validate v
         loopKw ps strict rest (res.set k v') (used ++ [p.name])
-    | Option.none => if strict then .error .tooMany else loopKw ps strict rest (res.set k v) used
+    | Option.none => if kwStrictTest strict k then .error .tooMany else loopKw ps strict rest (res.set k v) used   -- test generated
 
 /-- `signature.bind_partial(*args).arguments` as the second loop consumes it: `named` are the entries that go through the
     branches `elif k in parameter_dict` / `else` (signature order); `extras` are the surplus positionals when the (generated)
@@ -200,7 +200,7 @@ def loopPos (ps : List VParam) (strict : Bool) :
         let v' ← p.validate v
         loopPos ps strict rest (res.set k v') (used ++ [p.name]) (ua ++ [v])
     | Option.none =>
-      if strict && k != selfName then .error .tooMany else loopPos ps strict rest (res.set k v) used ua
+      if posStrictTest strict k then .error .tooMany else loopPos ps strict rest (res.set k v) used ua   -- test generated
 
 /-- second loop, the branch `if k == 'args' and wants_args`: the inner `for arg, parameter in zip(…)` -/
 def loopZip : List (PV × VParam) → Assoc → List Name → Except VExc (Assoc × List Name)
